@@ -303,8 +303,27 @@ def extract_gen_expr():
         raise ExtractError("translate_windowed: supports_frame no longer reads SourceExpr.window_frame")
     if not re.search(r"window_frame: if supports_frame && window\.frame != default_frame \{ Some\(try_into_window_frame\(window\.frame\)\?\) \} else \{ None \},", t):
         raise ExtractError("translate_windowed: the elision condition no longer has the modelled shape")
-    if not re.search(r"partition_by: try_into_exprs\(window\.partition, ctx, span\)\?, order_by,", t):
+    if not re.search(r"partition_by: try_into_exprs\(window\.partition, ctx, span\)\?, order_by,", t) and not (
+            re.search(r"let allow_stars = std::mem::replace\(&mut ctx\.query\.allow_stars, false\); let partition_by = try_into_exprs\(window\.partition, ctx, span\); ctx\.query\.allow_stars = allow_stars;", t)
+            and re.search(r"partition_by: partition_by\?, order_by,", t)):
         raise ExtractError("translate_windowed: PARTITION BY / ORDER BY construction changed")
+    if not re.search(r"let mut order_by: Vec<OrderByExpr> = \(window\.sort\) \.into_iter\(\) \.map\(\|sort\| translate_column_sort\(&sort, ctx\)\) \.try_collect\(\)\?;", t):
+        raise ExtractError("translate_windowed: ORDER BY is no longer every sort key of the window, in order")
+    # the rejection of a RANGE offset over a number of sort keys other than one (91a6a23): present in the modelled shape,
+    # or absent (the tree before it)
+    m_sup = re.search(r"let supports_frame = matches!\(.*?\);", t)
+    m_ord = re.search(r"let mut order_by: Vec<OrderByExpr>", t)
+    between = t[m_sup.end():m_ord.start()].strip()
+    rej = None
+    if between:
+        mr = re.fullmatch(r"if supports_frame && window\.frame\.kind == WindowKind::Range && window\.sort\.len\(\) != 1 \{ "
+                          r"let is_offset = \|bound: &Option<rq::Expr>\| \{ matches!\( bound, Some\(rq::Expr \{ kind: rq::ExprKind::Literal\(Literal::Integer\(i\)\), \.\. \}\) if \*i != 0 \) \}; "
+                          r"if is_offset\(&window\.frame\.range\.start\) \|\| is_offset\(&window\.frame\.range\.end\) \{ return Err\(Error::new_simple\( \"(.*?)\", \) \.with_span\(span\)\); \} \}", between)
+        if not mr:
+            raise ExtractError("translate_windowed: text between supports_frame and the ORDER BY not understood: %r" % between[:200])
+        rej = mr.group(1)
+        if rej != "window: a `range` with an offset needs exactly one sort key":
+            raise ExtractError("translate_windowed: the range-offset error message changed: %r" % rej)
     if not re.search(r'text: format!\("\{expr\} OVER \(\{window\}\)"\)', t):
         raise ExtractError("translate_windowed: OVER text changed")
     # try_into_window_frame
@@ -351,7 +370,7 @@ def extract_gen_expr():
     if not mu:
         raise ExtractError("try_into_window_frame: frame construction no longer has the modelled shape")
     return {"default_unsorted": unsorted_, "default_sorted": sorted_, "arms": parsed, "units": (mu.group(1), mu.group(2)),
-            "open_start": mu.group(3), "open_end": mu.group(4), "pl_default": mdf.group(1)}
+            "open_start": mu.group(3), "open_end": mu.group(4), "pl_default": mdf.group(1), "range_offset_rejection": rej is not None}
 
 
 # ----------------------------------------------------------------------------- anchor.rs
@@ -626,7 +645,16 @@ def generate():
     v += "Definition code_bound_distance_total : bool := %s.\n" % ("true" if all(neg in (None, False, "abs") for _, _, neg in g["arms"]) else "false")
     v += "Definition code_units (k : wkind) : wkind := match k with KRows => K%s | KRange => K%s end.\n" % g["units"]
     v += "Definition code_to_sframe (f : frame3) : sframe :=\n  match f with (k, a, b) => mk_sframe (code_units k) (match a with Some z => code_parse_bound z | None => S%s None end) (match b with Some z => code_parse_bound z | None => S%s None end) end.\n" % (g["open_start"], g["open_end"])
-    v += "Definition code_emit_frame (supports sorted : bool) (f : frame3) : option sframe :=\n  if supports && negb (frame3_eqb f (code_default_frame sorted)) then Some (code_to_sframe f) else None.\n\n"
+    v += "Definition code_emit_frame (supports sorted : bool) (f : frame3) : option sframe :=\n  if supports && negb (frame3_eqb f (code_default_frame sorted)) then Some (code_to_sframe f) else None.\n"
+    v += "(* the check in front of it: supports_frame && kind == Range && sort.len() != 1 && (start or end is a literal other than 0) *)\n"
+    if g["range_offset_rejection"]:
+        v += ("Definition code_range_offset_rejected (supports : bool) (nkeys : nat) (f : frame3) : bool :=\n"
+              "  match f with (k, a, b) => supports && wkind_eqb k KRange && negb (Nat.eqb nkeys 1)\n"
+              "    && ((match a with Some i => negb (i =? 0) | None => false end) || (match b with Some i => negb (i =? 0) | None => false end)) end.\n")
+    else:
+        v += "Definition code_range_offset_rejected (supports : bool) (nkeys : nat) (f : frame3) : bool := false.\n"
+    v += ("Definition code_emit_window (supports : bool) (nkeys : nat) (f : frame3) : option (option sframe) :=\n"
+          "  if code_range_offset_rejected supports nkeys f then None else Some (code_emit_frame supports (negb (Nat.eqb nkeys 0)) f).\n\n")
     a = info["anchor"]
     v += "(* sql/pq/anchor.rs *)\n"
     v += "Definition complexity_order : list cx := [%s].\n" % "; ".join(CX[x] for x in a["order"])
